@@ -309,6 +309,32 @@ Print Assumptions C06c_identity_meets_contracts.
 (* ---------------------------------------------------------------------------------------------- *)
 (* (C) the relation evaluated on every transition of every real run                                 *)
 (* ---------------------------------------------------------------------------------------------- *)
+(* what `step_admits` asks of the seen members of a generation is what the model does: the
+   population a pass of the loop body hands to _update_population consists of members of the
+   previous population, archive members and objects created during this pass *)
+Theorem C06c_loop_step_drawn :
+  forall C A X cvalid cverified a_items a_empty a_inv evaluate arch_update init_cells extend regularize
+         reproduce inherit elitism div_freq div_min div_unique div_refill,
+  loop_contracts C A X cvalid cverified a_items a_empty a_inv evaluate arch_update init_cells extend regularize
+                 reproduce inherit elitism div_unique div_refill ->
+  forall k s s' newpop,
+  evolve C A X a_items evaluate regularize reproduce inherit elitism div_freq div_min div_unique div_refill k s
+    = Some (s', newpop) ->
+  forall u, In u newpop -> In u (cs_pop s) \/ In u (a_items (cs_arch s)) \/ length (cs_heap s) <= u.
+Proof.
+  intros until div_refill. intros (H1 & H2 & H3 & H4 & H5 & H6 & H7 & H8 & H9 & H10 & H11 & H12 & H13 & H14).
+  exact (evolve_drawn C A X cvalid cverified a_items evaluate regularize reproduce inherit elitism div_freq div_min
+           div_unique div_refill H2 H4 H5 H6 H8 H10).
+Qed.
+Print Assumptions C06c_loop_step_drawn.
+
+(* ... and the archive head is in it when keep_n_best elitism applies and something was inherited *)
+Theorem C06c_evo_elite_kept : forall steps k h b best new,
+  Elitism.applies (es_eparams (steps k)) = true -> Elitism.e_type (es_eparams (steps k)) = Elitism.KeepNBest ->
+  1 <= length new -> In b (c_elitism steps k h (b :: best) new).
+Proof. exact c_elitism_head. Qed.
+Print Assumptions C06c_evo_elite_kept.
+
 (* an admitted transition satisfies the per-individual clauses of C06 for the generation it records
    and the archive clause for the snapshot recorded with it *)
 Theorem C06c_step_admits_sound : forall o, step_admits o = true ->
@@ -397,7 +423,8 @@ Proof. vm_compute. repeat split. Qed.
 (* the relation evaluated on real runs accepts the steps of this run and rejects broken ones *)
 Definition ex_ostep (kind : step_kind) (seen prev aprev next anext : list nat) (mx : nat) : ostep :=
   {| os_kind := kind; os_heap := map to_hind (cs_heap ex_run); os_seen := seen; os_prev := prev;
-     os_arch_prev := aprev; os_next := next; os_arch_next := anext; os_max := mx |}.
+     os_arch_prev := aprev; os_next := next; os_arch_next := anext; os_max := mx;
+     os_must := match kind with KEvolve => firstn 1 aprev | _ => [] end |}.
 
 Example ex_step_admits :
   step_admits (ex_ostep KInitial [] [] [] [0; 1] [1] 3) = true /\
@@ -417,7 +444,9 @@ Example ex_step_admits :
   (* archive snapshot not updated with the recorded population *)
   step_admits (ex_ostep KInitial [] [] [] [0; 1] [] 3) = false /\
   (* more members than the step allows *)
-  step_admits (ex_ostep KEvolve [0; 1; 2] [0; 1; 2] [1] [1; 5; 0] [5] 2) = false.
+  step_admits (ex_ostep KEvolve [0; 1; 2] [0; 1; 2] [1] [1; 5; 0] [5] 2) = false /\
+  (* keep_n_best elitism applies but the archive head (5) is not in the next generation *)
+  step_admits (ex_ostep KEvolve [0; 1; 2; 5] [1; 5; 0] [5] [8; 1; 0] [8] 3) = false.
 Proof. vm_compute. repeat split. Qed.
 
 (* the heap of the example run is well-founded (parents created before children), and the whole run
@@ -425,10 +454,10 @@ Proof. vm_compute. repeat split. Qed.
 Example ex_run_wf_and_admitted :
   wf_heap_b (map to_hind (cs_heap ex_run)) = true /\
   run_admits (map to_hind (cs_heap ex_run))
-    [ {| ot_kind := KInitial; ot_seen := []; ot_prev := []; ot_arch_prev := []; ot_next := [0; 1]; ot_arch_next := [1]; ot_max := 3 |};
-      {| ot_kind := KExtended; ot_seen := [0; 1]; ot_prev := [0; 1]; ot_arch_prev := [1]; ot_next := [0; 1; 2]; ot_arch_next := [1]; ot_max := 3 |};
-      {| ot_kind := KEvolve; ot_seen := [0; 1; 2]; ot_prev := [0; 1; 2]; ot_arch_prev := [1]; ot_next := [1; 5; 0]; ot_arch_next := [5]; ot_max := 3 |};
-      {| ot_kind := KEvolve; ot_seen := [0; 1; 2; 5]; ot_prev := [1; 5; 0]; ot_arch_prev := [5]; ot_next := [5; 8; 1]; ot_arch_next := [8]; ot_max := 3 |};
-      {| ot_kind := KEvolve; ot_seen := [0; 1; 2; 5; 8]; ot_prev := [5; 8; 1]; ot_arch_prev := [8]; ot_next := [8; 11; 5]; ot_arch_next := [11]; ot_max := 3 |};
-      {| ot_kind := KFinal; ot_seen := [0; 1; 2; 5; 8; 11]; ot_prev := [8; 11; 5]; ot_arch_prev := [11]; ot_next := [11]; ot_arch_next := [11]; ot_max := 3 |} ] = true.
+    [ {| ot_kind := KInitial; ot_seen := []; ot_prev := []; ot_arch_prev := []; ot_next := [0; 1]; ot_arch_next := [1]; ot_max := 3; ot_must := [] |};
+      {| ot_kind := KExtended; ot_seen := [0; 1]; ot_prev := [0; 1]; ot_arch_prev := [1]; ot_next := [0; 1; 2]; ot_arch_next := [1]; ot_max := 3; ot_must := [] |};
+      {| ot_kind := KEvolve; ot_seen := [0; 1; 2]; ot_prev := [0; 1; 2]; ot_arch_prev := [1]; ot_next := [1; 5; 0]; ot_arch_next := [5]; ot_max := 3; ot_must := [] |};
+      {| ot_kind := KEvolve; ot_seen := [0; 1; 2; 5]; ot_prev := [1; 5; 0]; ot_arch_prev := [5]; ot_next := [5; 8; 1]; ot_arch_next := [8]; ot_max := 3; ot_must := [] |};
+      {| ot_kind := KEvolve; ot_seen := [0; 1; 2; 5; 8]; ot_prev := [5; 8; 1]; ot_arch_prev := [8]; ot_next := [8; 11; 5]; ot_arch_next := [11]; ot_max := 3; ot_must := [] |};
+      {| ot_kind := KFinal; ot_seen := [0; 1; 2; 5; 8; 11]; ot_prev := [8; 11; 5]; ot_arch_prev := [11]; ot_next := [11]; ot_arch_next := [11]; ot_max := 3; ot_must := [] |} ] = true.
 Proof. vm_compute. split; reflexivity. Qed.
